@@ -62,6 +62,11 @@ def gen_cases(tier, seed):
             cid = "arrive:%s-eps:%s-irt:%s-dest:%s-aud:%s-u%d-p%d" % (arrive, eps, irt, dest, aud, unsol, pat)
             cases.append({"id": cid, "sig": [arrive, eps, irt, dest, aud, unsol, pat], "irt": irt, "scd": "match", "dest": dest, "aud": aud, "rec": "own",
                           "unsol": unsol, "conv": 0, "pat": pat, "signed": 0, "arrive": arrive, "eps": eps})
+    # the response arrives in a SOAP envelope at the SP's ECP endpoint (PAOS) and is handled by the helper the package's own SP plugin uses
+    for irt, scd, aud, unsol in itertools.product(IRT, ("match", "different", "absent"), ("one-naming", "one-foreign"), (0, 1)):
+        cid = "arrive:ecp-irt:%s-scd:%s-aud:%s-u%d" % (irt, scd, aud, unsol)
+        cases.append({"id": cid, "sig": ["ecp", irt, scd, aud, unsol], "irt": irt, "scd": scd, "dest": "own", "aud": aud, "rec": "own",
+                      "unsol": unsol, "conv": 0, "pat": 0, "signed": 0, "arrive": "ecp", "eps": "both"})
     # an SP with a clock allowance, confirmations whose window closed inside it
     for irt, scd, unsol in itertools.product(("match", "unknown"), SCD, (0, 1)):
         for lapsed in (60, 3):
@@ -159,6 +164,14 @@ def _deliver(sp, xml, outstanding, binding, **kw):
     import base64
     import zlib
     from saml2_tophat import BINDING_HTTP_POST
+    if binding == "ecp":
+        from saml2_tophat import ecp as ecp_mod
+        body = xml[xml.index("?>") + 2:] if xml.startswith("<?xml") else xml
+        envelope = '<ns0:Envelope xmlns:ns0="http://schemas.xmlsoap.org/soap/envelope/"><ns0:Body>%s</ns0:Body></ns0:Envelope>' % body
+        try:
+            return ecp_mod.handle_ecp_authn_response(sp, envelope, outstanding)[0], None
+        except Exception as exc:
+            return None, exc
     data = xml.encode("utf-8")
     enc = base64.b64encode(data).decode() if binding == BINDING_HTTP_POST else base64.b64encode(zlib.compress(data)[2:-4]).decode()
     try:
@@ -171,8 +184,8 @@ def run_case(case, ctx):
     from saml2_tophat import BINDING_HTTP_POST, BINDING_HTTP_REDIRECT
     arrive, eps = case.get("arrive", "post"), case.get("eps", "both")
     sp, idp = _pair(ctx, case["unsol"], case["pat"], case["signed"], eps, case.get("skew", 0))
-    binding = BINDING_HTTP_POST if arrive == "post" else BINDING_HTTP_REDIRECT
-    own_for_binding = ([fed.ACS_POST] if arrive == "post" else ([fed.ACS_REDIRECT] if eps == "both" else []))
+    binding = BINDING_HTTP_POST if arrive == "post" else (BINDING_HTTP_REDIRECT if arrive == "redirect" else "ecp")
+    own_for_binding = ([fed.ACS_POST] if arrive in ("post", "ecp") else ([fed.ACS_REDIRECT] if eps == "both" else []))
     own_acs = own_for_binding[0] if own_for_binding else fed.ACS_POST      # what an honest IdP would have addressed
     xml = fed.issue(idp, {"givenName": ["Ann"]}, in_response_to="id-req-1", destination=own_acs, sign_response=False)
     d = xk.Doc(xml)
